@@ -90,6 +90,25 @@ def gen_source(rng, nif, ncls):
             post.append('classImplements(%s, %s)' % (name, ', '.join(sel)))
         classes.append(name)
         shapes[name] = shape
+    if rng.random() < 0.5 and ifs:
+        # a class that is false in a boolean context (a metaclass with __len__: registries of members, enumerations)
+        name = 'K%d' % len(classes)
+        shape = rng.choice(['decorated', 'only', 'plain', 'only_after'])
+        lines.append('class FalsyMeta(type):')
+        lines.append('    def __len__(cls): return 0')
+        lines.append('')
+        if shape == 'decorated':
+            lines.append('@implementer(%s)' % ifs[0])
+        elif shape == 'only':
+            lines.append('@implementer_only(%s)' % ifs[0])
+        lines.append('class %s(metaclass=FalsyMeta):' % name)
+        lines.append('    pass')
+        lines.append('')
+        if shape == 'only_after':
+            post.append('classImplementsOnly(%s, %s)' % (name, ifs[-1]))
+        classes.append(name)
+        shapes[name] = 'falsy_class_' + shape
+        mirror[name] = type('M', (object,), {})
     lines.extend(post)
     # a built-in / extension type declared with an *only* form (its specification lives in a side table,
     # the type object cannot carry attributes); one type per generated module, chosen by the caller
